@@ -139,18 +139,32 @@ def call_text(kind, call, site, style):
     return "%s.f(%s)" % (recv, args_text(call, site))
 
 
-def render_sig_program(kind, sig, calls):
+GEN_BLOCK = ("def _gen%d():\n    try:\n        yield from ()\n    except Exception as exc:\n"
+             "        raise ValueError('x') from exc\n\n\n")
+LAZY_BLOCK = "def _lazy%d():\n    import os\n    from os import path\n    return path\n\n\n"
+
+
+def render_sig_program(kind, sig, calls, furniture="none"):
     """C06 program: module m (definition + first half of the sites) and entry module n
-    (imports m, second half).  Returns (files, site_info) where site_info[k] = (path, marker)."""
+    (imports m, second half).  Returns (files, site_info) where site_info[k] = (path, marker).
+    furniture "from_then_lazy_import": functions with `yield from` / `raise .. from` before, and
+    functions with function-level imports after, every group of call sites."""
+    furn = furniture == "from_then_lazy_import"
     n = len(calls)
     split = (n + 1) // 2
     m = "G = %d\n\n\n%s\n\n%s\n\n" % (INTRO_VALUE, SHOW, def_block(sig, kind, ["_show(locals(), G)"]))
     if kind != "function" and kind != "constructor":
         m += WRAPPERS + INSTANCES
     info = []
+    if furn:
+        m += GEN_BLOCK % 0
     for k in range(split):
         m += "%s  # s%d\n" % (call_text(kind, calls[k], k, (1, k % 2)), k)
         info.append(("m.py", "# s%d" % k))
+        if furn and k % 4 == 3:
+            m += "\n\n" + LAZY_BLOCK % k + GEN_BLOCK % (k + 1)
+    if furn:
+        m += "\n\n" + LAZY_BLOCK % 9999
     nsrc = "import m\n"
     if kind == "function":
         nsrc += "from m import f\n"
@@ -159,9 +173,15 @@ def render_sig_program(kind, sig, calls):
             nsrc += "from m import C, W2, W3\n" + INSTANCES
         else:
             nsrc += "from m import C\n"
+    if furn:
+        nsrc += "\n\n" + GEN_BLOCK % 0
     for k in range(split, n):
         nsrc += "%s  # s%d\n" % (call_text(kind, calls[k], k, (2, k % 2)), k)
         info.append(("n.py", "# s%d" % k))
+        if furn and k % 4 == 3:
+            nsrc += "\n\n" + LAZY_BLOCK % k + GEN_BLOCK % (k + 1)
+    if furn:
+        nsrc += "\n\n" + LAZY_BLOCK % 9999
     return {"m.py": m, "n.py": nsrc}, info
 
 
